@@ -175,7 +175,7 @@ def base_arg(t, v):
 
 
 class Outcome:
-    __slots__ = ("t", "v", "expect", "form", "pname", "pl", "obj", "buf", "before", "after", "error", "log", "src", "size_model")
+    __slots__ = ("t", "v", "expect", "form", "pname", "pl", "obj", "buf", "before", "after", "error", "log", "src", "size_model", "ghosts")
 
 
 def nested_view_arg(t, v):
@@ -384,6 +384,71 @@ def with_ref_objects(t, v, buf):
         return None if v is None else xt.construct(t[1][v[0]], xt.to_py(t[1][v[0]], v[1]), _buffer=buf)
 
 
+GHOST_EXT = [(3, 2, 4), (4, 3, 2), (2, 4, 3), (3, 4, 2), (4, 2, 3), (2, 3, 4)]
+
+
+def ghost_values(t, v, size, k=2):
+    """values of the same type and the same total size whose dynamic extents / item sizes are others"""
+    out = []
+    for mode in ("alt", "ramp", "long"):
+        for ext in GHOST_EXT:
+            try:
+                g = xt.gen(t, mode, dynext=ext)
+                if xt.layout_size(t, g) != size or hand_shapes(t, g) == hand_shapes(t, v):
+                    continue
+            except Exception:
+                continue
+            if not any(hand_shapes(t, g) == hand_shapes(t, x) for x in out):
+                out.append(g)
+            if len(out) >= k:
+                return out
+    return out
+
+
+def hand_shapes(t, v):
+    """the shapes and string lengths of a value tree (what decides where its parts lie)"""
+    if isinstance(v, dict) and "shape" in v and "items" in v:
+        return ("A", tuple(v["shape"]), tuple(hand_shapes(t[1], v["items"][i]) for i in sorted(v["items"])))
+    if isinstance(v, dict):
+        return tuple(hand_shapes(ft, v[n]) for n, ft in t[1])
+    if isinstance(v, str):
+        return len(v.encode("utf8")) // 8
+    if isinstance(v, tuple):
+        return (v[0], hand_shapes(t[1][v[0]], v[1])) if t[0] == "U" else None
+    if v is not None and t[0] == "R":
+        return hand_shapes(t[1], v)
+    return None
+
+
+def ghosts(t, v, size, pl, o):
+    """placement `ghosthole`: the hole the object is going to land in has been occupied before, by objects of the SAME type and
+    total size whose parts lie elsewhere (other dynamic extents, other item sizes); each of them was read in full through its
+    handle and through views rebuilt from (buffer, offset) at every level, then released.  Whatever the library remembers
+    about a place of a buffer belongs to the object that lived there then."""
+    b = pl.buf
+    o.ghosts = 0
+    for g in ghost_values(t, v, size):
+        try:
+            arg = xt.to_py(t, g) if xt.py_expressible(t, g) else xt.to_nd(t, g, "nd")
+            gh = xt.construct(t, arg, _buffer=b, _offset="packed")
+            off = int(gh._offset)
+            if off != pl.expect_off:
+                continue  # (did not land in the hole: leave it where it is)
+            xt.read(t, gh)
+            if t[0] != "U":
+                xt.read(t, xt.build(t)._from_buffer(b, off))
+            from . import hand
+
+            for path, ct, ch in hand.handles(t, gh):
+                if not any(q in ("*", "#") for q in path):
+                    xt.read(ct, xt.build(ct)._from_buffer(ch._buffer, ch._offset))
+            b.free(off, size)
+            o.ghosts += 1
+        except Exception:
+            pass  # (a ghost that cannot be built or read is C01's business)
+    b.log.clear()
+
+
 def execute(t, v, form, pname, salt=0):
     """Run one construction.  Never raises for library failures: they are recorded in .error"""
     o = Outcome()
@@ -416,8 +481,10 @@ def execute(t, v, form, pname, salt=0):
         arg = nested_view_arg(t, v)
     else:
         arg = None  # built below, needs the placement
-    pl = place.place(pname, size_for_place, salt)
+    pl = place.place("dirtyhole" if pname == "ghosthole" else pname, size_for_place, salt)
     o.pl = pl
+    if pname == "ghosthole":
+        ghosts(t, v, size_for_place, pl, o)
     if form in ("ref-same", "ref-foreign"):
         tb = pl.buf if (form == "ref-same" and pl.buf is not None) else place.traced("np", 0)
         arg = with_ref_objects(t, v, tb)
